@@ -125,11 +125,11 @@ class GeneralCallables:
 
     @classmethod
     def factor_of(cls, value):
-        return cls(call_funcs.factor_of, value)
+        return cls(call_funcs.factor_of, value=value)
 
     @classmethod
     def has_factor(cls, value):
-        return cls(call_funcs.has_factor, value)
+        return cls(call_funcs.has_factor, value=value)
 
     @classmethod
     def truthy(cls):
